@@ -59,6 +59,7 @@ REVERT_EXPECT: Dict[str, List[Tuple[str, str]]] = {
     "a1543d3": [("C10", "K9.nested-control-replay")],
     "6bef8db": [("C12", "K8.spin-ordering"), ("C03", "K8.spin-ordering")],
     "23a8686": [("C14", "K9.truncation-bound")],
+    "d569ba9": [("C15", "K8.rebuild-agreement")],
 }
 
 
